@@ -10,6 +10,7 @@ Rules are phrased over this canonical form so that behaviour-preserving respelli
  N4  an `else: pass` arm is dropped
  N5  a temporary with exactly one binding and one use, the use sitting at the head of the very next statement, is inlined
      (`c = f(x); if c:` -> `if f(x):`)
+ N8  a private or ALL_CAPS module-level name bound once to a literal is replaced by that literal where it is read
  N6  `v = []` directly followed by `for t in xs: [if c:] v.append(e)` -> `v = [e for t in xs if c]`
 
 Positions (lineno) are kept from the original nodes so that reports still point into the file.
@@ -200,7 +201,90 @@ def _replace(root: ast.AST, old: ast.AST, new: ast.AST):
                         return
 
 
+def _literal(e: ast.AST) -> bool:
+    if isinstance(e, ast.Constant):
+        return True
+    if isinstance(e, (ast.Tuple, ast.List, ast.Set)):
+        return all(_literal(x) for x in e.elts)
+    if isinstance(e, ast.Call) and isinstance(e.func, ast.Name) and e.func.id in ('frozenset', 'tuple', 'set') and len(e.args) <= 1 \
+            and not e.keywords:
+        return all(_literal(x) for x in e.args)
+    if isinstance(e, ast.JoinedStr):
+        return all(isinstance(v, ast.Constant) for v in e.values)
+    if isinstance(e, ast.BinOp) and isinstance(e.op, ast.Add):
+        return _literal(e.left) and _literal(e.right)
+    return False
+
+
+def propagate_module_constants(tree: ast.Module) -> ast.Module:
+    """N8: a module-level name that is bound exactly once, to a literal (string, number, tuple/set of literals), and whose spelling
+    marks it as a constant (_private or ALL_CAPS) is replaced by the literal wherever it is read and not shadowed"""
+    import copy
+    import re as _re
+    binds = {}
+    counts = {}
+    for st in tree.body:
+        tgts = []
+        if isinstance(st, ast.Assign):
+            tgts = [t for t in st.targets]
+            val = st.value
+        elif isinstance(st, ast.AnnAssign) and st.value is not None:
+            tgts = [st.target]
+            val = st.value
+        for t in tgts:
+            for x in ast.walk(t):
+                if isinstance(x, ast.Name):
+                    counts[x.id] = counts.get(x.id, 0) + 1
+            if isinstance(t, ast.Name) and _literal(val) and _re.match(r'^(_\w+|[A-Z][A-Z0-9_]*)$', t.id) and not t.id.startswith('__'):
+                binds[t.id] = val
+    # any other store of the name anywhere (global statements, loops at module level) disqualifies it
+    for n in ast.walk(tree):
+        if isinstance(n, ast.Global):
+            for nm in n.names:
+                binds.pop(nm, None)
+    binds = {k: v for k, v in binds.items() if counts.get(k) == 1}
+    if not binds:
+        return tree
+
+    class _Sub(ast.NodeTransformer):
+        def __init__(self):
+            self.shadow = [set()]
+
+        def _scope(self, n):
+            local = set()
+            a = getattr(n, 'args', None)
+            if a is not None:
+                local |= {x.arg for x in a.posonlyargs + a.args + a.kwonlyargs + [y for y in (a.vararg, a.kwarg) if y]}
+            for x in ast.walk(n):
+                if isinstance(x, ast.Name) and isinstance(x.ctx, (ast.Store, ast.Del)):
+                    local.add(x.id)
+            self.shadow.append(self.shadow[-1] | local)
+            self.generic_visit(n)
+            self.shadow.pop()
+            return n
+
+        visit_FunctionDef = _scope
+        visit_AsyncFunctionDef = _scope
+        visit_Lambda = _scope
+
+        def visit_Name(self, n):
+            if isinstance(n.ctx, ast.Load) and n.id in binds and n.id not in self.shadow[-1]:
+                return ast.copy_location(copy.deepcopy(binds[n.id]), n)
+            return n
+
+    new_body = []
+    sub = _Sub()
+    for st in tree.body:
+        if isinstance(st, (ast.FunctionDef, ast.AsyncFunctionDef, ast.ClassDef)):
+            new_body.append(sub.visit(st))
+        else:
+            new_body.append(st)
+    tree.body = new_body
+    return tree
+
+
 def normalize(tree: ast.Module) -> ast.Module:
+    tree = propagate_module_constants(tree)
     tree = _Norm().visit(tree)
     ast.fix_missing_locations(tree)
     return tree
